@@ -128,6 +128,28 @@ func wrun(args []string) error {
 				return err
 			}
 		}
+	case "bulk":
+		// large chunks (hundreds of KiB to MiB, so that the codecs stream them in several blocks / frames) under every
+		// built-in compression x compression level; n bounds the number of configurations
+		g := gen.New(*seed)
+		k := 0
+		for _, cs := range []int64{0, 300 << 10, 4 << 20} {
+			for _, comp := range []string{"zstd", "lz4", ""} {
+				for level := 0; level < 4; level++ {
+					if comp == "" && level > 0 {
+						continue
+					}
+					if k >= *n {
+						break
+					}
+					k++
+					c := wl.Cfg{Chunked: true, ChunkSize: cs, Compression: comp, Level: level, CRC: k%2 == 0}
+					if err := do(wl.Workload{ID: fmt.Sprintf("bulk%d-%s-%d-%d", *seed, comp, level, cs), Cfg: c, Calls: g.BulkCalls(*size)}); err != nil {
+						return err
+					}
+				}
+			}
+		}
 	case "asm":
 		// remuxing workloads: chunks assembled by the caller, AddSchema / AddChannel (every 8th leaves channels unregistered)
 		g := gen.New(*seed)
